@@ -112,6 +112,24 @@ func checkC01(w *World, r *Report) {
 						addr, kind = x.Call.Args[0], "atomic write"
 					}
 				}
+				// a pointer-receiver method of a foreign type called on the address of a field
+				// (n.buf.Reset(), n.buf.Write…, n.once.Do): the field's memory is the method's
+				// to write — except for the methods that only read
+				if addr == nil && len(x.Call.Args) > 0 && !x.Call.IsInvoke() {
+					if f := calleeFunc(x); f != nil && f.Pkg() != nil && f.Pkg().Path() != twigPath {
+						if sig, ok := f.Type().(*types.Signature); ok && sig.Recv() != nil {
+							if _, isPtr := sig.Recv().Type().(*types.Pointer); isPtr {
+								if fa, isFA := x.Call.Args[0].(*ssa.FieldAddr); isFA {
+									switch f.Name() {
+									case "Len", "Cap", "String", "Bytes", "Load", "RLock", "RUnlock", "Lock", "Unlock", "Available":
+									default:
+										addr, kind = fa, "call of "+f.Name()+" on"
+									}
+								}
+							}
+						}
+					}
+				}
 				if addr == nil {
 					return
 				}
